@@ -3,6 +3,7 @@
 //   drv_c13 enum4  <seed> <nsample>             all canonical 4-face lists over 5 ids natively; a seeded sample is emitted
 //   drv_c13 random <seed> <n> <maxfaces>        random lists biased to non-manifold edges / bow-ties / repeated and mirrored faces
 #include <algorithm>
+#include <map>
 #include <chrono>
 #include "rt/rt.h"
 #include "draco/mesh/corner_table.h"
@@ -14,7 +15,7 @@ static long long n_run = 0, n_emit = 0, n_diff = 0;
 
 // att_*: the attribute connectivity derived from the same table (MeshAttributeCornerTable::InitFromAttribute over a seam-free attribute):
 // att_inv = corners of non-degenerate faces without an attribute vertex, att_nv / att_maxv = number of attribute vertices / largest one in use
-struct Obs { std::vector<int> opp, ctv, vc, par; int iso = 0, deg = 0; bool ok = false; double ms = 0; bool att_ok = false; int att_inv = 0, att_nv = 0, att_maxv = -1; };
+struct Obs { std::vector<int> opp, ctv, vc, par; int iso = 0, deg = 0; bool ok = false; double ms = 0; bool att_ok = false; int att_inv = 0, att_nv = 0, att_maxv = -1; std::vector<int> attv; bool att_part_ok = true; };
 static Obs run_ct(const std::vector<int> &F) {
   Obs o;
   IndexTypeVector<FaceIndex, CornerTable::FaceType> faces;
@@ -64,8 +65,18 @@ static Obs run_ct(const std::vector<int> &F) {
         const int f = c / 3;
         const bool degenerate = F[3 * f] == F[3 * f + 1] || F[3 * f] == F[3 * f + 2] || F[3 * f + 1] == F[3 * f + 2];
         const VertexIndex v = act.Vertex(CornerIndex(c));
+        o.attv.push_back(v == kInvalidVertexIndex ? -1 : (int)v.value());
         if (v == kInvalidVertexIndex) { if (!degenerate) ++o.att_inv; }
         else o.att_maxv = std::max(o.att_maxv, (int)v.value());
+      }
+      // projection for long lists: the attribute is seam-free, so two corners share an attribute vertex exactly when they share a table vertex
+      std::map<int, int> a2c, c2a;
+      for (int c = 0; c < (int)F.size(); ++c) {
+        const int av = o.attv[c], cv = o.ctv[c];
+        if (av < 0 || cv < 0) continue;
+        if (a2c.count(av) && a2c[av] != cv) o.att_part_ok = false;
+        if (c2a.count(cv) && c2a[cv] != av) o.att_part_ok = false;
+        a2c[av] = cv; c2a[cv] = av;
       }
     }
   }
@@ -73,7 +84,7 @@ static Obs run_ct(const std::vector<int> &F) {
 }
 static void emit(const std::vector<int> &F, const Obs &o, bool same, const char *src) {
   out.begin("CT").s("src", src).arr("f", F).b("ok", o.ok).arr("opp", o.opp).arr("ctv", o.ctv).arr("vc", o.vc).arr("par", o.par)
-      .i("iso", o.iso).i("deg", o.deg).b("same", same).i("ms", (long long)o.ms).b("att_ok", o.att_ok).i("att_inv", o.att_inv).i("att_nv", o.att_nv).i("att_maxv", o.att_maxv).end();
+      .i("iso", o.iso).i("deg", o.deg).b("same", same).i("ms", (long long)o.ms).b("att_ok", o.att_ok).i("att_inv", o.att_inv).i("att_nv", o.att_nv).i("att_maxv", o.att_maxv).arr("attv", o.attv).b("att_part_ok", o.att_part_ok).end();
   ++n_emit;
 }
 
@@ -90,7 +101,7 @@ static int run_replay(const char *path, int mod) {
     const bool same = o.ok && o.opp == row["opp"].ints() && o.ctv == row["ctv"].ints() && o.vc == row["vc"].ints() &&
                       o.par == row["par"].ints() && o.iso == (int)row["iso"].n && o.deg == (int)row["deg"].n;
     if (!same) ++n_diff;
-    if (!same || !o.att_ok || o.att_inv || o.att_maxv >= o.att_nv || (k++ % mod) == 0) emit(F, o, same, "replay");
+    if (!same || !o.att_ok || o.att_inv || o.att_maxv >= o.att_nv || !o.att_part_ok || (k++ % mod) == 0) emit(F, o, same, "replay");
   }
   fclose(f);
   fprintf(stderr, "STATS run=%lld emitted=%lld diff=%lld\n", n_run, n_emit, n_diff);
@@ -101,7 +112,7 @@ static void enum_rec(std::vector<int> &F, int nc, int maxid, uint64_t seed, uint
   if ((int)F.size() == nc) {
     const uint64_t h = vrt::fnv1a(F.data(), F.size() * sizeof(int), seed);
     const Obs o = run_ct(F);
-    if (!o.ok || !o.att_ok || o.att_inv || o.att_maxv >= o.att_nv || h % stride == 0) emit(F, o, true, "enum4");
+    if (!o.ok || !o.att_ok || o.att_inv || o.att_maxv >= o.att_nv || !o.att_part_ok || h % stride == 0) emit(F, o, true, "enum4");
     return;
   }
   for (int v = 0; v <= std::min(4, maxid + 1); ++v) {
